@@ -120,7 +120,7 @@ pub fn real_list_slices(ctx: &mut Ctx, per_list: usize, slice_len: usize) -> Vec
 }
 
 pub fn check(ctx: &mut Ctx) {
-    ctx.rule = "lists of 1-30 rules mixing every network shape (options, modifiers, tags, domains, hostname/full regexes, fusable rules) and cosmetic shape (hostnames, entities, negations, #@#, :style/:remove*, +js, generichide exceptions), debug on/off, optimise on/off; E=Engine(L), E'=Engine::new().deserialize(E.serialize_raw()); every network query under the empty and the case's tag set, csp, url_cosmetic_resources, hidden_class_id_selectors must be equal. Plus deterministic slices of the real lists under /repo/data with requests/pages derived from their own rules. Non-trivial = the original engine gives at least one non-default answer.".into();
+    ctx.rule = "lists of 1-30 rules mixing every network shape (options, modifiers, tags, domains, hostname/full regexes, fusable rules) and cosmetic shape (hostnames, entities, negations, #@#, :style/:remove*, +js, generichide exceptions), debug on/off, optimise on/off; E=Engine(L), E'=Engine::new().deserialize(E.serialize_raw()); every network query under the empty and the case's tag set, csp, url_cosmetic_resources, hidden_class_id_selectors must be equal. big-group: 2-800 same-shape rules (mostly optimised, so fused sets cross 64/128/256 patterns) with one request per rule; lists occasionally carry a token-less rule with an 8-41 entry domain= list incl. dot-less hosts and requests whose URL contains those names. Plus deterministic slices of the real lists under /repo/data with requests/pages derived from their own rules. Non-trivial = the original engine gives at least one non-default answer.".into();
     ctx.assumptions = vec![
         "all generated lists use default permissions while finding C08-scriptlet-permission-not-serialized is open".into(),
     ];
@@ -128,6 +128,12 @@ pub fn check(ctx: &mut Ctx) {
     ctx.probe("C08-scriptlet-permission-not-serialized", json!({"rules": ["example.com##+js(perm)"], "list_permission": 3, "resource_permission": 1}), probe_permission());
     let n = ctx.tier.pick(150_000, 1_500_000);
     drive(ctx, "roundtrip", n, 1500, &decode, &check_case);
+    // large same-shape groups (fused sets beyond 64/128/256 patterns) through the round trip
+    let n = ctx.tier.pick(300, 6_000);
+    drive(ctx, "big-group", n, 120, &|t| {
+        let c = gen::big_group_case(t);
+        FullCase { rules: c.rules, tags: c.tags, reqs: c.reqs, pages: vec![], classes: vec![], ids: vec![], debug: t.chance(1, 4), optimize: !t.chance(1, 4) }
+    }, &check_case);
     let (per, len) = ctx.tier.pick((3, 1200), (12, 4000));
     for c in real_list_slices(ctx, per, len) {
         crate::run::run_one(ctx, "real-lists", &c, &check_case);
